@@ -466,6 +466,26 @@ def rfc_duration(text):
     return -tot if sg == "-" else tot
 
 
+def duration_texts():
+    """RFC 5545 dur-values of every total length from 3 to 18 characters, in every
+    syntactic form (weeks, days, days+time, time only; signed and unsigned)."""
+    out = {}
+    forms = ["P{a}W", "P{a}D", "PT{a}H", "PT{a}M", "PT{a}S", "PT{a}H{b}M", "PT{a}M{b}S", "PT{a}H{b}S",
+             "PT{a}H{b}M{c}S", "P{a}DT{b}H", "P{a}DT{b}M", "P{a}DT{b}H{c}M", "P{a}DT{b}H{c}M{d}S"]
+    nums = ["1", "10", "123", "1234", "12345", "123456"]
+    small = ["1", "2", "3", "10", "59"]
+    for sign in ("", "-", "+"):
+        for f in forms:
+            for a in nums:
+                for b in small[:3]:
+                    for c in ("2", "10"):
+                        t = sign + f.format(a=a, b=b, c=c, d="3")
+                        L = len(t)
+                        if 3 <= L <= 18:
+                            out.setdefault((L, f, sign), t)
+    return sorted(out.values(), key=lambda t: (len(t), t))
+
+
 # ---------------------------------------------------------------------------
 def explore_dispatch(ctx):
     """vDDDTypes.from_ical classifies every RFC form as the right type."""
@@ -497,6 +517,23 @@ def explore_dispatch(ctx):
                 F.add("classification", f"a {form} text is decoded as {v!r}", text=text)
         except AbsRaise as e:
             F.add("classification", f"a {form} text is rejected ({e.cls_name})", text=text)
+        except Unsupported as e:
+            raise AnalysisError(f"vDDDTypes.from_ical({text!r}) leaves the abstract interface: {e}")
+    # every text length: a classifier that looks at the length or at single positions of
+    # the text must still agree with the grammars (which are mutually exclusive)
+    for text in duration_texts():
+        want = rfc_duration(text)
+        F.n += 1
+        it.steps = 0
+        try:
+            v = it.call(frm, [text], {})
+            if not (isinstance(v, TD) and v.secs == want):
+                F.add("classification", f"a DURATION text of {len(text)} characters is decoded as {v!r}",
+                      text=text, expected_seconds=want)
+        except AbsRaise as e:
+            if abs(want) < 10 ** 9 * 86400:
+                F.add("classification", f"a DURATION text of {len(text)} characters is rejected "
+                      f"({e.cls_name})", text=text)
         except Unsupported as e:
             raise AnalysisError(f"vDDDTypes.from_ical({text!r}) leaves the abstract interface: {e}")
     # lists and periods decode each part with the same classifier and hand the
@@ -545,6 +582,136 @@ def explore_dispatch(ctx):
 
 
 DISPATCH_LAWS = ["classification", "composite", "rejects"]
+
+
+def explore_reserialise(ctx):
+    """Whatever a composite decoder accepts can be written again: the parts a
+    RECUR rule, a date list or the combined decoder produce from accepted texts
+    (a DATE, DATE-TIME, TIME, DURATION or PERIOD in any position the decoder
+    admits) are encoded by to_ical without any error other than ValueError, and
+    the result is one byte/str text."""
+    model = ctx.model
+    F = Findings()
+    members = [("20200229", "DATE"), ("20200229T235959", "DATE-TIME"), ("20200229T235959Z", "DATE-TIME (UTC)"),
+               ("235959", "TIME"), ("235959Z", "TIME (UTC)"), ("P1W", "DURATION"), ("-PT15M", "DURATION"),
+               ("20200101T000000Z/PT1H", "PERIOD")]
+    shells = [("prop.vRecur", "FREQ=DAILY;UNTIL={}", "RECUR rule with UNTIL"),
+              ("prop.vRecur", "FREQ=DAILY;COUNT=2;X-PART={}", "RECUR rule with an extension part"),
+              ("prop.vDDDLists", "{}", "one-element list"), ("prop.vDDDLists", "{0},{0}", "list"),
+              ("prop.vDDDTypes", "{}", "single value")]
+    for cq, shell, what in shells:
+        ci = model.cls(cq)
+        for text, kind in members:
+            src = shell.format(text)
+            it = CodecInterp(model)
+            F.n += 1
+            try:
+                try:
+                    val = it.call(it.getattr(ClassVal(ci), "from_ical"), [src], {})
+                except AbsRaise as e:
+                    if "ValueError" not in it.exc_bases(e.cls_name):
+                        F.add("decode total", f"{ci.name}.from_ical of a {what} holding a {kind} raises "
+                              f"{e.cls_name}", text=src)
+                    continue
+                obj = val if isinstance(val, Obj) and val.cls is not None and \
+                    model.lookup_method(val.cls, "to_ical") is not None else it.instantiate(ci, [val], {})
+                try:
+                    raw = it.call(it.getattr(obj, "to_ical"), [], {})
+                except AbsRaise as e:
+                    if "ValueError" not in it.exc_bases(e.cls_name):
+                        F.add("re-encode total", f"{ci.name}.from_ical accepts a {what} holding a {kind}, "
+                              f"but writing the decoded value raises {e.cls_name} ({e.msg})", text=src)
+                    continue
+                if not isinstance(raw, (bytes, str)):
+                    raise Unsupported(f"{ci.name}.to_ical returned {raw!r}")
+            except Unsupported as e:
+                raise AnalysisError(f"{ci.name} on {src!r} leaves the abstract interface: {e}")
+    return F
+
+
+RESER_LAWS = ["decode total", "re-encode total"]
+
+
+def explore_scalars(ctx):
+    """INTEGER, FLOAT, BOOLEAN, GEO, URI, CAL-ADDRESS, weekday, frequency, month: the
+    codec interpreted on concrete values of every magnitude class - decoding the
+    encoded text gives the value back, and RFC texts decode to the value they denote."""
+    model = ctx.model
+    F = Findings()
+
+    def num(v):
+        if isinstance(v, Obj):
+            if "intval" in v.attrs:
+                return v.attrs["intval"]
+            if "floatval" in v.attrs:
+                return v.attrs["floatval"]
+            if v.strval is not None:
+                return v.strval
+        return v
+
+    big = 2 ** 53
+    samples = {
+        "vInt": [0, 1, -1, 7, 2 ** 31 - 1, -2 ** 31, big + 1, -(big + 1), 2 ** 63 - 1, 10 ** 20 + 1],
+        "vFloat": [0.0, 1.5, -2.25, 1000000.5, 0.1, 123456789.125],
+        "vBoolean": [True, False],
+        "vUri": ["http://example.com/a?b=c", "mailto:a@b"], "vCalAddress": ["mailto:a@example.com"],
+        "vWeekday": ["MO", "SU", "+1MO", "-2SU", "53FR"], "vFrequency": ["DAILY", "YEARLY"],
+        "vMonth": [1, 12, "5L"],
+    }
+    texts = {"vInt": [("0", 0), ("-12", -12), ("+7", 7), ("007", 7), ("9007199254740993", big + 1),
+                      ("18014398509481985", 2 ** 54 + 1)],
+             "vFloat": [("1.5", 1.5), ("-0.25", -0.25), ("+3.0", 3.0), ("10", 10.0)],
+             "vBoolean": [("TRUE", True), ("FALSE", False)]}
+    for cname, vals in sorted(samples.items()):
+        ci = model.cls(f"prop.{cname}", required=False)
+        if ci is None:
+            continue
+        for v in vals:
+            it = Interp(model)
+            F.n += 1
+            try:
+                o = it.instantiate(ci, [v], {})
+                raw = it.call(it.getattr(o, "to_ical"), [], {})
+                text = raw.decode("utf-8") if isinstance(raw, bytes) else raw
+                if not isinstance(text, str) or is_opaque_text(text):
+                    raise Unsupported(f"{cname}.to_ical returned {raw!r}")
+                back = num(it.call(it.getattr(ClassVal(ci), "from_ical"), [text], {}))
+                want = v if cname != "vMonth" else (int(str(v).rstrip("L")))
+                if cname == "vWeekday":
+                    want = str(v)
+                    back = it._str(back) if not isinstance(back, str) else back
+                if back != want or type(back) is not type(want) and not isinstance(want, str):
+                    F.add("round trip", f"{cname}: decoding the encoded text of {v!r} gives {back!r}",
+                          value=repr(v), text=text)
+            except AbsRaise as e:
+                F.add("round trip", f"{cname}: encode/decode of {v!r} raises {e.cls_name}", value=repr(v))
+            except Unsupported as e:
+                raise AnalysisError(f"{cname}({v!r}): codec leaves the abstract interface: {e}")
+    for cname, pairs in sorted(texts.items()):
+        ci = model.cls(f"prop.{cname}", required=False)
+        if ci is None:
+            continue
+        for text, want in pairs:
+            it = Interp(model)
+            F.n += 1
+            try:
+                back = num(it.call(it.getattr(ClassVal(ci), "from_ical"), [text], {}))
+                if back != want:
+                    F.add("RFC text", f"{cname}: the RFC text {text!r} decodes to {back!r}, it denotes {want!r}",
+                          text=text)
+            except AbsRaise as e:
+                F.add("RFC text", f"{cname}: the RFC text {text!r} is rejected ({e.cls_name})", text=text)
+            except Unsupported as e:
+                raise AnalysisError(f"{cname}.from_ical({text!r}) leaves the abstract interface: {e}")
+    return F
+
+
+def is_opaque_text(x):
+    from .absint import is_opaque
+    return is_opaque(x)
+
+
+SCALAR_LAWS = ["round trip", "RFC text"]
 
 
 def explore_freshness(ctx):
